@@ -16,6 +16,7 @@ import_pams()
 import numpy as np  # noqa: E402
 from pams.agents.fcn_agent import FCNAgent  # noqa: E402
 from pams.logs.base import Logger  # noqa: E402
+from pams.logs.market_step_loggers import MarketStepSaver  # noqa: E402
 from pams.market import Market  # noqa: E402
 from pams.events.base import EventABC, EventHook  # noqa: E402
 from pams.runners.sequential import SequentialRunner  # noqa: E402
@@ -32,7 +33,9 @@ def fx(x):
     return repr(x)
 
 
-class DetLogger(Logger):
+class DetLogger(MarketStepSaver):
+    """the library's own MarketStepSaver (what it has stacked is part of the record of a run) with every other record added"""
+
     def __init__(self, rec):
         super().__init__()
         self.rec = rec
@@ -57,6 +60,7 @@ class DetLogger(Logger):
         self._r("SB", log.session.session_id, m.market_id, m.get_time(), m.get_market_price(), m.get_fundamental_price())
 
     def process_market_step_end_log(self, log):
+        super().process_market_step_end_log(log)
         m = log.market
         self._r("SE", log.session.session_id, m.market_id, m.get_time(), m.get_market_price(), m.get_mid_price(),
                 m.get_last_executed_price(), m.get_executed_volume(), m.get_best_buy_price(), m.get_best_sell_price())
@@ -147,6 +151,9 @@ def run_once(cfg, seed, rec, with_logger=True):
         rec.append("series|%d|%s|%s|%s" % (m.market_id, fx(m.get_market_prices()), fx(m.get_fundamental_prices()), fx(m.get_executed_volumes())))
     for a in sim.agents:
         rec.append("hold|%d|%s|%s" % (a.agent_id, fx(float(a.cash_amount)), fx(sorted(a.asset_volumes.items()))))
+    if with_logger:
+        saved = runner.logger.market_step_logs
+        rec.append("L-saver|%d|%s" % (len(saved), fx([[d["market_time"], d["market_id"], d["market_price"]] for d in saved[:3] + saved[-3:]])))
 
 
 def other_config():
